@@ -6,7 +6,7 @@ import numpy as np
 from vlib import core, dom, rescorr
 
 ID = "C04"
-PROPS = ["C04_update.v", "C01_matrix.v"]
+PROPS = ["C04_update.v", "C01_matrix.v", "C04_step_system.v"]
 GEN = ["reservoir"]
 RES_TOL = 1e-9
 
